@@ -38,7 +38,8 @@ type scenario struct {
 }
 
 type hshake struct {
-	off  int
+	off  int   // offset of its stamp from the bridge's hour when it was made
+	hour int64 // the stamped epoch hour
 	blob []byte
 	hs   *ref.ClientHandshake
 }
@@ -95,7 +96,9 @@ func submit(b *o4.Bridge, h int, hk *hshake) {
 	cidMu.Unlock()
 	l := wire.NewLink(false, 0)
 	done := make(chan error, 1)
-	w.Emit(vt.Ev{"event": "Submit", "cid": cid, "h": h, "off": hk.off})
+	// the offset that counts is the one at the time of THIS submission (the clock may have been moved since the stamp)
+	effOff := int(hk.hour - ref.EpochHour(time.Now()))
+	w.Emit(vt.Ev{"event": "Submit", "cid": cid, "h": h, "off": effOff})
 	go func() { _, err := b.SF.WrapConn(l.B); done <- err }()
 	l.B.Deliver(hk.blob)
 	var err error
@@ -108,7 +111,7 @@ func submit(b *o4.Bridge, h int, hk *hshake) {
 		if st := l.B.State(); werr != nil && len(done) == 0 && st.InRead == 0 && !st.Closed {
 			// 15 s after its input arrived the server has neither returned nor come back to a Read: it is blocked INSIDE
 			// the handshake code (the replay filter's locks are process wide: nothing after this can be trusted to run)
-			w.Emit(vt.Ev{"event": "Wedged", "cid": cid, "h": h, "off": hk.off})
+			w.Emit(vt.Ev{"event": "Wedged", "cid": cid, "h": h, "off": effOff})
 			wedgedMu.Lock()
 			wedged = true
 			wedgedMu.Unlock()
@@ -142,7 +145,7 @@ func submit(b *o4.Bridge, h int, hk *hshake) {
 		_, _, perr := hs2.ParseResponse(out)
 		echo = perr == nil
 	}
-	w.Emit(vt.Ev{"event": "Result", "cid": cid, "h": h, "off": hk.off, "accepted": accepted, "echo_ok": echo, "silent": len(out) == 0})
+	w.Emit(vt.Ev{"event": "Result", "cid": cid, "h": h, "off": effOff, "accepted": accepted, "echo_ok": echo, "silent": len(out) == 0})
 	l.A.Close()
 	l.B.Close()
 }
@@ -182,7 +185,7 @@ func run(s *scenario) {
 		c := &ref.ClientHandshake{KP: kp, ID: b.ID.PublicOnly(), Hour: ref.EpochHour(time.Now()) + int64(off), PadLen: 100 + h%700}
 		pad := make([]byte, c.PadLen)
 		rand.Read(pad)
-		return &hshake{off: off, blob: c.Request(pad), hs: c}
+		return &hshake{off: off, hour: c.Hour, blob: c.Request(pad), hs: c}
 	}
 	for _, st := range s.Steps {
 		if isWedged() {
@@ -195,6 +198,22 @@ func run(s *scenario) {
 			w.Emit(vt.Ev{"event": "Plant", "ok": ok, "short_s": st.N})
 		case "sleep":
 			time.Sleep(time.Duration(st.N) * time.Millisecond)
+		case "shift":
+			// the clock of the whole process (bridge, filter, reference client) moves forward by N seconds
+			if !shiftClock(int64(st.N)) {
+				w.Emit(vt.Ev{"event": "DriverDead", "why": "built without the shiftable clock"})
+				return
+			}
+			w.Emit(vt.Ev{"event": "Shift", "s": st.N})
+		case "setminute":
+			// forward to the next time the clock shows minute N of an hour (and a few seconds)
+			cur := time.Now().Unix() % 3600
+			d := (int64(st.N)*60 + 5 - cur + 3600) % 3600
+			if !shiftClock(d) {
+				w.Emit(vt.Ev{"event": "DriverDead", "why": "built without the shiftable clock"})
+				return
+			}
+			w.Emit(vt.Ev{"event": "Shift", "s": d, "minute": st.N})
 		case "new":
 			hs[st.H] = mk(st.H, st.Off)
 		case "submit":
